@@ -138,7 +138,7 @@ func rulesC13(c *Ctx) {
 			guards := g.GuardsAt(closeV)
 			okThr := hasAtom(guards, func(a Atom) bool {
 				x, y, op, ok := cmpOn(a.E, func(e ast.Expr) bool { return loop.ObjOf(e) == ctr })
-				if !ok || loop.ObjOf(x) != ctr || loop.ObjOf(y) != types.Object(thr) {
+				if !ok || loop.ObjOf(x) != ctr || !loop.Root().aliasesOf(loop.ObjOf(y))[types.Object(thr)] {
 					return false
 				}
 				return (op == token.LSS && !a.Val) || (op == token.GEQ && a.Val)
